@@ -1,6 +1,6 @@
 (* C17 -- No input can crash or wedge a read. Property theorems only (the model-level half; signals,
    unsafe code and the kernel are outside the model: see the junk stream). *)
-From RL Require Import UData LineBuffer KillRing Editor EditorRun ProgressProofs DecoderProofs UndoEditor NoPanic.
+From RL Require Import UData LineBuffer KillRing Editor EditorRun ProgressProofs DecoderProofs UndoEditor NoPanic ReadNoPanic.
 
 (* the byte decoder is total, for EVERY character stream and chunking, both timeout settings: it yields a
    key having consumed at least one character, or reports the end of the input / an undecodable byte;
@@ -64,6 +64,22 @@ Theorem C17_execute_never_panics :
   match execute U cfg c s with EPanic => False | EOk _ s' => J s' | _ => True end.
 Proof. exact execute_never_panics. Qed.
 Print Assumptions C17_execute_never_panics.
+
+(* READING A COMMAND NEVER PANICS: from a state satisfying J (and, in vi mode, a non-negative pending count), for
+   EVERY input stream, chunking and timeout setting, either mode, any custom bindings: decoding the next key,
+   digit arguments (Emacs M-digits with sign and saturation, vi counts), key sequences, pastes, the whole Emacs /
+   vi-command / vi-insert keymaps, repeat (.) -- never reaches a Panic (no unreachable!(), no failed conversion),
+   re-establishes the invariant, and touches neither the line nor the kill ring *)
+Theorem C17_next_cmd_never_panics :
+  forall (U : UData) (cfg : config) (fuel : nat) (sea : bool) (s : est),
+  J s -> (is_emacs cfg = false -> (0 <= i_num_args s)%Z) ->
+  match next_cmd U cfg fuel sea s with
+  | EPanic => False
+  | EOk _ s' => (J s' /\ (is_emacs cfg = false -> (0 <= i_num_args s')%Z)) /\ e_line s' = e_line s /\ e_kr s' = e_kr s
+  | _ => True
+  end.
+Proof. intros U cfg fuel sea s HJ HN. exact (kq_next_cmd U cfg fuel sea s (conj HJ HN)). Qed.
+Print Assumptions C17_next_cmd_never_panics.
 
 (* the state every read starts from satisfies J *)
 Theorem C17_initial_state_ok :
